@@ -33,8 +33,29 @@ fn catalogue() -> Vec<(&'static str, Vec<(&'static str, &'static str, usize)>)> 
         ("test:b", vec![("0.1.0", "B010", 10)]),
         ("test:c", vec![]),
         ("test:d", vec![("1.1.0", "D110", 20), ("1.0.0", "D100", 700_000)]),
+        // many small releases of one package: material for requests of more keys than any
+        // batch / window / small-map size an implementation might use (9..20 keys)
+        ("test:e", MANY.iter().map(|(v, t, pad)| (*v, *t, *pad)).collect()),
     ]
 }
+
+/// releases of `test:e` (version, token, padding), sizes mixed so completion order varies
+const MANY: [(&str, &str, usize); 14] = [
+    ("0.1.0", "E0100", 10),
+    ("0.2.0", "E0200", 120_000),
+    ("0.3.0", "E0300", 30),
+    ("0.4.0", "E0400", 4_000),
+    ("0.5.0", "E0500", 50),
+    ("0.6.0", "E0600", 300_000),
+    ("0.7.0", "E0700", 70),
+    ("0.8.0", "E0800", 8_000),
+    ("0.9.0", "E0900", 90),
+    ("0.10.0", "E1000", 60_000),
+    ("0.11.0", "E1100", 11),
+    ("0.12.0", "E1200", 1_200),
+    ("1.0.0", "E1000000", 25),
+    ("1.1.0-beta.1", "E110b1", 15),
+];
 
 /// a component whose bytes are unique per token and about `pad` bytes long
 fn content(token: &str, pad: usize) -> Vec<u8> {
@@ -99,6 +120,15 @@ fn pool() -> Vec<K> {
         for ver in vs {
             v.push(K { name: n, version: ver });
         }
+    }
+    v
+}
+
+/// the keys of `test:e` (only used by the many-key requests, not by the exhaustive pair part)
+fn pool_many() -> Vec<K> {
+    let mut v = vec![K { name: "test:e", version: None }];
+    for (ver, _, _) in MANY.iter() {
+        v.push(K { name: "test:e", version: Some(*ver) });
     }
     v
 }
@@ -170,7 +200,7 @@ impl World {
                 f.extend(["err".into(), "Infrastructure".into(), "\\e;".into(), "\\e;".into(), "\\e;".into()]);
             }
             Ok(Ok(m)) => {
-                out.count(&format!("result:ok{}", m.len().min(6)));
+                out.count(&format!("result:ok{}", if m.len() > 8 { "9+".to_string() } else { m.len().to_string() }));
                 let order: Vec<usize> = m.keys().map(|k| keys.get_index_of(k).unwrap()).collect();
                 if (2..=3).contains(&order.len()) {
                     // which completion orders were actually seen for small requests
@@ -212,7 +242,7 @@ impl World {
         if shared_names {
             out.count("request:keys-share-a-name");
         }
-        out.count(&format!("request:{}keys", request.len()));
+        out.count(&format!("request:{}keys", if request.len() > 8 { format!("9..20({})", if request.len() > 16 { ">16" } else { "<=16" }) } else { request.len().to_string() }));
         out.count(&format!("workers:{workers}"));
         let id = out.case(request.len() > 1, "reg", &f);
         if let Some(e) = infra {
@@ -341,6 +371,38 @@ pub fn run(args: Args) {
         }
     }
 
+    // (c) many keys in one request (9..20: more than one batch of any plausible batching of the
+    //     downloads, and more tasks than worker threads): many versions of few packages, mostly
+    //     resolvable (a failing key makes the whole request an error, which hides everything
+    //     else), one failing key mixed in for 1 set in 5; two request orders each
+    let many = pool_many();
+    let good_small: Vec<K> = pool.iter().filter(|p| matches!(p.name, "test:a" | "test:b" | "test:d") && p.version != Some("9.9.9")).cloned().collect();
+    let nmany = if args.thorough() { 400 } else { args.num("many", 8) };
+    for _ in 0..nmany {
+        let n = 9 + r.below(12);
+        let mut set: Vec<K> = Vec::new();
+        let mut guard = 0;
+        while set.len() < n && guard < 400 {
+            guard += 1;
+            let k = if r.chance(2, 3) { r.pick(&many).clone() } else { r.pick(&good_small).clone() };
+            if !set.contains(&k) {
+                set.push(k);
+            }
+        }
+        if r.chance(1, 5) {
+            let bad: Vec<&K> = pool.iter().filter(|p| !good_small.contains(p)).collect();
+            let k = (*r.pick(&bad)).clone();
+            let at = r.below(set.len() + 1);
+            set.insert(at, k);
+        }
+        for _ in 0..2 {
+            let mut s = set.clone();
+            r.shuffle(&mut s);
+            requests.push(s);
+        }
+    }
+
+    let replay_pool: Vec<K> = pool.iter().chain(many.iter()).cloned().collect();
     if let Some(path) = &args.replay {
         // replay: the requests of the CASE lines of the file
         requests.clear();
@@ -364,7 +426,7 @@ pub fn run(args: Args) {
             for _ in 0..nk {
                 let name = parts[i];
                 let ver = parts[i + 1];
-                if let Some(k) = pool.iter().find(|p| esc(p.name) == name && esc(p.version.unwrap_or("")) == ver) {
+                if let Some(k) = replay_pool.iter().find(|p| esc(p.name) == name && esc(p.version.unwrap_or("")) == ver) {
                     req.push(k.clone());
                 }
                 i += 4;
